@@ -196,3 +196,217 @@ def parse_val(s):
     if s is None or s.startswith("~") or s.startswith("!") or s.startswith("?"):
         return None
     return Fraction(s)
+
+
+# ---- Polar's dumps -> Coq terms for AfterLoop.check_exit -------------------------------------
+def rename_cond(c, ren):
+    def rexpr(d):
+        return [[co, [[ren.get(x, x), k] for x, k in mon]] for co, mon in d]
+    k = c[0]
+    if k in ("true", "false"):
+        return [k]
+    if k == "atom":
+        return ["atom", rexpr(c[1]), c[2], rexpr(c[3])]
+    if k == "not":
+        return ["not", rename_cond(c[1], ren)]
+    return [k, rename_cond(c[1], ren), rename_cond(c[2], ren)]
+
+
+def cond_dump_vars(c):
+    k = c[0]
+    if k in ("true", "false"):
+        return set()
+    if k == "atom":
+        return {x for d in (c[1], c[3]) for _, mon in d for x, _ in mon}
+    if k == "not":
+        return cond_dump_vars(c[1])
+    return cond_dump_vars(c[1]) | cond_dump_vars(c[2])
+
+
+def old_copies(flat):
+    """{aux: source variable} for the copies `_oldK = x` IfTransformer puts at the start of the body"""
+    ren = {}
+    for a in flat.get("body", []):
+        if "if" in a:
+            continue
+        r = a.get("rhs")
+        if a["var"].startswith("_old") and a["cond"] == ["true"] and r and r[0] == "choice" and len(r[1]) == 1:
+            e = r[1][0][1]
+            if len(e) == 1 and Fraction(e[0][0]) == 1 and len(e[0][1]) == 1 and e[0][1][0][1] == 1:
+                ren[a["var"]] = e[0][1][0][0]
+    return ren
+
+
+def const_dump(q):
+    q = Fraction(q)
+    return [[f"{q.numerator}/{q.denominator}", []]] if q != 0 else []
+
+
+def mono_of_dump(d):
+    if len(d) != 1 or Fraction(d[0][0]) != 1:
+        raise core.NotModelled(f"not a monomial: {d}")
+    return {x: k for x, k in d[0][1]}
+
+
+def dec(x):
+    if isinstance(x, list):
+        raise core.NotModelled("algebraic number")
+    return Fraction(x)
+
+
+def epoly_coq(f):
+    return exppoly.coq_epoly([(dec(b), [dec(cf) for cf in cs]) for b, cs in f])
+
+
+def program_defs(r):
+    """Coq definitions fp0, T0, G0, Ss0 shared by all goals of one program; raises NotModelled"""
+    flat = r["flat"]
+    if "unsupported" in flat:
+        raise core.NotModelled(flat["unsupported"])
+    ext = [{"var": x, "cond": ["true"], "default": x, "rhs": ["choice", [[const_dump(1), const_dump(val)]]]}
+           for x, val in r.get("init_extension", [])]
+    flat2 = dict(flat)
+    flat2["init"] = ext + list(flat["init"])
+    if r.get("original_loop_guard") is None:
+        raise core.NotModelled("guard dump")
+    out = f"Definition fp0 : flatprog := {core.flat_coq(flat2)}.\n"
+    out += f"Definition T0 : tenv := {core.types_coq(flat['types'])}.\n"
+    out += f"Definition G0 : cond := {P.c_coq(core.cond_to_ast(r['original_loop_guard']))}.\n"
+    ss = []
+    for s in r["systems"]:
+        inst = s["instance"]
+        if "cf" not in inst:
+            raise core.NotModelled("system closed forms: " + str(inst.get("unsupported")))
+        if inst["cf"]["gens"]:
+            raise core.NotModelled("algebraic closed forms")
+        ms, ms_c, A_c, v_c = core.system_coq(s, inst)
+        F = P.lst([epoly_coq(f) for f in inst["cf"]["general"]])
+        sp = P.lst([P.lst([P.q_coq(dec(x)) for x in row]) for row in inst["cf"]["specials"]])
+        ss.append(f"{{| s_ms := {ms_c}; s_A := {A_c}; s_v := {v_c}; s_F := {F}; s_sp := {sp} |}}")
+    out += f"Definition Ss0 : list sysd := {P.lst(ss)}.\n"
+    return out
+
+
+def terms_coq(r, part, which):
+    ts = []
+    for co, mtxt, d in part[which + "_terms"]:
+        m = mono_of_dump(d)
+        j = part["term_system"][mtxt]
+        dumps = r["systems"][j]["monomial_dumps"]
+        ks = [i for i, dd in enumerate(dumps) if mono_of_dump(dd) == m]
+        if not ks:
+            raise core.NotModelled(f"monomial {mtxt} not in its system")
+        ts.append(f"(({P.q_coq(Fraction(co))}, {P.mono_coq(m)}), ({j}%nat, {ks[0]}%nat))")
+    return P.lst(ts), P.q_coq(Fraction(part[which + "_const"]))
+
+
+def cf_coq(cf):
+    if cf["gens"]:
+        raise core.NotModelled("algebraic closed form")
+    return epoly_coq(cf["general"][0]), P.lst([P.q_coq(dec(row[0])) for row in cf["specials"]])
+
+
+def part_terms(r, part, mono):
+    """Coq arguments of check_exit after fp0 T0 G0, or raises NotModelled"""
+    if "exception" in part:
+        raise core.NotModelled("part exception")
+    for k in ("num_cf", "den_cf"):
+        if k not in part:
+            raise core.NotModelled(part.get(k + "_unsupported", "no closed form"))
+    tsN, c0N = terms_coq(r, part, "num")
+    tsD, c0D = terms_coq(r, part, "den")
+    fN, spN = cf_coq(part["num_cf"])
+    fD, spD = cf_coq(part["den_cf"])
+    M = f"[(mkq 1 1, {P.mono_coq(mono)})]"
+    return {"M": M, "N": f"{c0N} {tsN} {fN} {spN}", "D": f"{c0D} {tsD} {fD} {spD}", "fN": fN, "fD": fD,
+            "tsN": tsN, "tsD": tsD, "c0N": c0N, "c0D": c0D, "spN": spN, "spD": spD}
+
+
+EXIT_HEADER = ("From Coq Require Import List String QArith Qcanon ZArith.\n"
+               "From Polar Require Import Qcx CRing ExpPoly ClosedForm Dist Syntax Sem Types Poly Pipeline Wp Search AfterLoop.\n"
+               "Import ListNotations.\nOpen Scope string_scope.\n"
+               "Definition cm0 : string -> list Qc -> nat -> Qc := fun _ _ _ => 0%Qc.\n")
+
+LIMIT_DEFS = """
+Definition decaying (r : Qc) : bool := Qc_ltb (- (1))%Qc r && Qc_ltb r 1%Qc.
+"""
+
+
+def parse_evals(out):
+    """[(value text, type text)] of the Eval results printed by coqc, in order"""
+    return [(m.group(1).strip(), m.group(2).strip()) for m in re.finditer(r"^\s+= (.*?)^\s+: ([^\n]*)$", out, re.M | re.S)]
+
+
+def parse_opt_q(txt):
+    m = re.match(r"Some\s*\(\s*\(?(-?\d+)\)?%?Z?\s*,\s*(\d+)%?(?:positive)?\s*\)", txt.replace("\n", " "))
+    if not m:
+        return None
+    return Fraction(int(m.group(1)), int(m.group(2)))
+
+
+# ---- shape of a closed form (python side, for divergence / diagnostics only) -------------------
+def growth(cf):
+    """classify the general part: ('const', a) | ('inf', sign) | None (unknown).  cf: enc_cf of one sequence"""
+    if cf["gens"]:
+        return None
+    a = Fraction(0)
+    dom = None  # (base, degree, coeff) of the dominant growing term
+    for b, cs in cf["general"][0]:
+        b = Fraction(b)
+        cs = [Fraction(x) for x in cs]
+        while cs and cs[-1] == 0:
+            cs.pop()
+        if not cs:
+            continue
+        if b == 1 and len(cs) == 1:
+            a += cs[0]
+        elif abs(b) < 1:
+            continue
+        elif b >= 1:
+            key = (b, len(cs) - 1)
+            if dom is None or key > dom[:2]:
+                dom = (b, len(cs) - 1, cs[-1])
+            elif key == dom[:2]:
+                dom = (b, len(cs) - 1, dom[2] + cs[-1])
+        else:
+            return None
+    if dom is None:
+        return ("const", a)
+    if dom[2] == 0:
+        return None
+    return ("inf", 1 if dom[2] > 0 else -1)
+
+
+def eval_cond_ast(c, st):
+    k = c[0]
+    if k == "true":
+        return True
+    if k == "false":
+        return False
+    if k == "not":
+        return not eval_cond_ast(c[1], st)
+    if k == "and":
+        return eval_cond_ast(c[1], st) and eval_cond_ast(c[2], st)
+    if k == "or":
+        return eval_cond_ast(c[1], st) or eval_cond_ast(c[2], st)
+    a, b = eval_expr_ast(c[1], st), eval_expr_ast(c[3], st)
+    return {"==": a == b, "<=": a <= b, ">=": a >= b, "<": a < b, ">": a > b}[c[2]]
+
+
+def eval_expr_ast(e, st):
+    k = e[0]
+    if k == "const":
+        return e[1]
+    if k == "var":
+        return st.get(e[1], Fraction(0))
+    if k == "add":
+        return eval_expr_ast(e[1], st) + eval_expr_ast(e[2], st)
+    if k == "sub":
+        return eval_expr_ast(e[1], st) - eval_expr_ast(e[2], st)
+    if k == "mul":
+        return eval_expr_ast(e[1], st) * eval_expr_ast(e[2], st)
+    if k == "neg":
+        return -eval_expr_ast(e[1], st)
+    if k == "pow":
+        return eval_expr_ast(e[1], st) ** e[2]
+    raise ValueError(e)
